@@ -4,6 +4,7 @@ package gosym
 
 import (
 	"fmt"
+	"os"
 	"go/token"
 	"go/types"
 	"runtime"
@@ -38,6 +39,7 @@ type Program struct {
 	byteSlice  types.Type
 	anyType    types.Type
 	errorIface types.Type
+	lazyT      *fakeType
 }
 
 type intrinsic func(ex *exec, fr *frame, fn *ssa.Function, args []value) value
@@ -443,7 +445,7 @@ func (ex *exec) prepareCall(fr *frame, call *ssa.CallCommon) (fn value, args []v
 	if call.Method == nil {
 		fn = v
 	} else {
-		recv := v.(iface)
+		recv := ex.force(v.(iface))
 		if recv.t == nil {
 			panic(runtimeError("invalid memory address or nil pointer dereference (method " + call.Method.Name() + " invoked on nil interface)"))
 		}
@@ -652,6 +654,7 @@ func (ex *exec) doRecover(caller *frame) value {
 
 // panicSiteInfo describes where a target panic was first raised.
 type panicSiteInfo struct {
+	src   string // source text of the line in fn where the panic surfaced
 	fn    string // innermost module (non-harness) function on the stack
 	inner string // innermost function
 	pos   string
@@ -686,6 +689,8 @@ func (ex *exec) notePanicSite(fr *frame, r interface{}) {
 			info.fn = name
 			if pos != "" {
 				info.pos = pos
+				ps := ex.prog.Fset.Position(f.cur.Pos())
+				info.src = sourceLine(ps.Filename, ps.Line)
 			}
 		}
 	}
@@ -719,4 +724,40 @@ func (p *Program) isHarnessFn(fn *ssa.Function) bool {
 	}
 	f := p.prog.Fset.Position(pos).Filename
 	return strings.Contains(f, "zz_verif") || strings.Contains(f, "/verifrt/") || strings.Contains(f, "/zzverif/")
+}
+
+var srcCache sync.Map
+
+func sourceLine(file string, line int) string {
+	var lines []string
+	if v, ok := srcCache.Load(file); ok {
+		lines = v.([]string)
+	} else {
+		data, err := os.ReadFile(file)
+		if err != nil {
+			return ""
+		}
+		lines = strings.Split(string(data), "\n")
+		srcCache.Store(file, lines)
+	}
+	if line < 1 || line > len(lines) {
+		return ""
+	}
+	return strings.Join(strings.Fields(lines[line-1]), " ")
+}
+
+// panicClass reduces a panic message to its class (no input-dependent detail).
+func panicClass(msg string) string {
+	for _, c := range []string{"interface conversion", "index out of range", "nil pointer dereference", "slice bounds out of range",
+		"integer divide by zero", "hash of unhashable type", "assignment to entry in nil map", "comparing uncomparable",
+		"negative shift amount", "close of closed channel", "close of nil channel", "send on closed channel", "reflect:", "makeslice"} {
+		if strings.Contains(msg, c) {
+			return c
+		}
+	}
+	msg = sanitizeMsg(msg)
+	if len(msg) > 60 {
+		msg = msg[:60]
+	}
+	return msg
 }
